@@ -29,8 +29,20 @@ var vkeywords = []vkw{
 // mkSV builds a validation set holding the keywords of mask; `zero` selects zero values for numbers.
 func mkSV(mask int, variant int) spec.SchemaValidations {
 	var v spec.SchemaValidations
-	f := func(i int) *float64 { x := float64((variant*7+i)%5) * float64(1-variant%2*2); if variant%3 == 0 { x = 0 }; return &x }
-	n := func(i int) *int64 { x := int64((variant*3 + i) % 4); if variant%3 == 0 { x = 0 }; return &x }
+	f := func(i int) *float64 {
+		x := float64((variant*7+i)%5) * float64(1-variant%2*2)
+		if variant%3 == 0 {
+			x = 0
+		}
+		return &x
+	}
+	n := func(i int) *int64 {
+		x := int64((variant*3 + i) % 4)
+		if variant%3 == 0 {
+			x = 0
+		}
+		return &x
+	}
 	has := func(i int) bool { return mask&(1<<i) != 0 }
 	if has(0) {
 		v.Maximum = f(0)
